@@ -30,8 +30,12 @@ def run(ctx):
     rows = {}
     for inst in ("testdata", "random"):
         r = ctx.run_driver("c05", {"part": "sites", "instance": inst, "k": 1, "mode": "native"}, tag="sites-" + inst)
+        if r.get("failed"):
+            # the honest run of the site recorder was itself rejected: the acceptance cases below decide (and report) that
+            ctx.leads.append("the site table of %s could not be recorded: %s" % (inst, (r.get("info") or {}).get("driver_error")))
+            continue
         ctx.traces_validated += 1
-        for row in r["results"]:
+        for row in r.get("results", []):
             rows.setdefault(row["site"], row)
     classes = c05.site_classes(list(rows.values()))
     adj = {}
